@@ -9,6 +9,20 @@ sys.path.insert(0, os.path.dirname(os.path.abspath(__file__)))
 import common  # noqa: E402
 
 
+class CheckTimeout(BaseException):
+    """Raised by the wall-clock watchdog: a check must never hang, whatever the code under
+    test does (a mutated falcon may loop forever)."""
+
+
+def _arm_watchdog(seconds):
+    import signal
+
+    def on_alarm(signum, frame):
+        raise CheckTimeout('check exceeded its wall-clock limit of %d s' % seconds)
+    signal.signal(signal.SIGALRM, on_alarm)
+    signal.alarm(seconds)
+
+
 def main():
     ap = argparse.ArgumentParser()
     ap.add_argument('prop')
@@ -36,6 +50,8 @@ def main():
         common.coqchk(ctx)
     if not ctx.model_broken:
         mod = importlib.import_module(a.prop.lower())
+        limit = int(os.environ.get('VERIF_CHECK_LIMIT') or (900 if a.tier == 'quick' else 5400))
+        _arm_watchdog(limit)
         try:
             if a.replay:
                 import json
@@ -47,12 +63,22 @@ def main():
                     mod.main(ctx)
             else:
                 mod.main(ctx)
+        except CheckTimeout as e:
+            ctx.violation('check-timeout', {'broken': a.prop + ' correspondence did not finish: the implementation '
+                                            'hangs or is far slower than on the unchanged tree', 'error': repr(e),
+                                            'trace': traceback.format_exc()[-3000:]},
+                          found_input=False, key='check-timeout')
         except BaseException as e:
             if isinstance(e, KeyboardInterrupt):
                 raise
             ctx.violation('harness-crash', {'broken': a.prop + ' correspondence harness raised',
                                             'error': repr(e), 'trace': traceback.format_exc()[-3000:]},
                           found_input=False, key='harness-crash')
+    try:
+        import signal
+        signal.alarm(0)
+    except Exception:
+        pass
     sys.exit(common.finish(ctx))
 
 
